@@ -68,19 +68,24 @@ def _is_connected_cached(cls, x, y):
     if x == y:
         result = True
     else:
+        # Same order of questions as sympy's fast path: for each operator, ask it for
+        # (x, y) and then for (y, x) with the roles of Max and Min exchanged.
         t, f, result = sympy.Max, sympy.Min, False
-        for _ in range(2):
-            for op in "><":
+        done = False
+        for op in "><":
+            for _ in range(2):
                 try:
                     v = (x >= y) if op == ">" else (x <= y)
                 except TypeError:
+                    done = True
                     break
                 if not v.is_Relational:
                     result = t if v else f
+                    done = True
                     break
                 t, f = f, t
                 x, y = y, x
-            if result is not False:
+            if done:
                 break
             x, y = y, x
     if len(_is_connected_cache) >= 200_000:
